@@ -57,6 +57,7 @@ FLAT_TASK_SHAPES = [
     (2, 1, (True, True), 'thorough'),
     (2, 2, (True,), 'thorough'),
     (3, 2, (True, False), 'thorough'),
+    (3, 2, (True, True), 'thorough'),
 ]
 
 # two-worker shapes for the glue harnesses: (n, c, owner table, tier)
@@ -591,9 +592,12 @@ def gen_kernel_module(kernel):
     keyexpr = 'i' if k.get('key', 'pos') == 'pos' else '(i, q)'
     body.append(_fill(TASK_TEMPLATES[fam], f0=k['f0'], kind=k['kind'], keyexpr=keyexpr))
     for (n, c, mine, tier) in shapes:
-        ops = [('Add', tier)] if fam == 'red' else [(None, tier)]
+        if fam == 'red' and (n, c, mine) == (3, 2, (True, True)):
+            tier = 'quick'  # a worker that holds a partial result and then pulls another chunk (possibly without survivors)
+        # xor is associative/commutative, detects a lost or doubled survivor, and is far cheaper for SAT than add
+        ops = [('Xor', tier)] if fam == 'red' else [(None, tier)]
         if fam == 'red' and (n, c, mine) == (3, 1, (True, False, True)):
-            ops = [('Add', 'quick'), ('Xor', 'thorough'), ('Min', 'thorough'), ('Max', 'thorough')]
+            ops = [('Xor', 'quick'), ('Add', 'thorough'), ('Min', 'thorough'), ('Max', 'thorough')]
         for op, t2 in ops:
             name = 'k_task_%s_n%dc%d_m%s%s' % (kernel, n, c, _mname(mine), ('_' + op.lower()) if op else '')
             nm = sum(1 for i in range(n) if mine[i // c])
@@ -669,6 +673,8 @@ TERMINALS.update({
     'into_vec': ('{P}.collect_into(vec_with(pre))', '{S}.collect::<Vec<E>>()', 'seq_pre', ['C06']),
     'into_split': ('{P}.collect_into(split_with(pre))', '{S}.collect::<Vec<E>>()', 'pinned_pre', ['C06']),
     'into_fixed': ('{P}.collect_into(fixed_with(pre))', '{S}.collect::<Vec<E>>()', 'fixed_pre', ['C06']),
+    # SplitVec target whose existing contents already fill its maximum concurrent capacity
+    'into_split_full': ('{P}.collect_into(split_full(pre))', '{S}.collect::<Vec<E>>()', 'pinned_pre2', ['C06']),
 })
 
 SHORT = ('find', 'first', 'any', 'all')
@@ -741,6 +747,19 @@ CMP = {
                     assert!(*x == pre, "{PR}: the existing contents of the target were disturbed");
                 } else {
                     assert!(*x == exp[j - 1], "{PR}: appended sequence differs from collect_vec");
+                }
+                j += 1;
+            }
+        }""",
+    'pinned_pre2': """
+        assert!(got.len() == exp.len() + 2, "{PR}: wrong number of elements");
+        let mut j = 0;
+        for frag in got.fragments() {
+            for x in frag.iter() {
+                if j < 2 {
+                    assert!(*x == pre, "{PR}: the existing contents of the target were disturbed");
+                } else {
+                    assert!(*x == exp[j - 2], "{PR}: appended sequence differs from collect_vec");
                 }
                 j += 1;
             }
@@ -838,7 +857,7 @@ def gen_api():
                     if not (term == 'collect_vec' or chain in BASE_CHAINS):
                         continue
                     if term.startswith('into_'):
-                        tier = 'quick' if (chain, term) in (('map', 'into_vec'), ('map_fil', 'into_vec')) else 'thorough'
+                        tier = 'quick' if (chain, term) in (('map', 'into_vec'), ('map_fil', 'into_vec'), ('map', 'into_split_full')) else 'thorough'
                     t2 = tier if ((chain, term) in QUICK_API or (mode == 'seq' and (chain, term) in QUICK_API_SEQ) or term.startswith('into_')) else 'thorough'
                     if flat and term in ('collect_x',):
                         t2 = 'thorough'
@@ -1025,6 +1044,33 @@ def generate_all():
         out['src/core/%s.rs' % kernel] = gen_kernel_module(kernel)
     out['+src/core/verif_kani/h_api.rs'] = gen_api()
     out['+src/core/verif_kani/h_lazy.rs'] = gen_lazy()
+    import os
+    static = os.path.join(os.path.dirname(os.path.dirname(os.path.abspath(__file__))), 'kani', 'static')
+    out['+src/core/verif_kani/h_drop.rs'] = open(os.path.join(static, 'h_drop.rs')).read()
+    for rel, fname, mod, names in (
+            ('src/core/runner_settings/chunk_size.rs', 'pair_chunk_size.rs', 'core::runner_settings::chunk_size', ['k_pair_min_chunk_size', 'k_pair_auto_chunk_size', 'k_pair_calc_chunk_size']),
+            ('src/core/runner_settings/utils.rs', 'pair_utils.rs', 'core::runner_settings::utils', ['k_pair_div_ceil']),
+            ('src/core/runner_settings/num_threads.rs', 'pair_num_threads.rs', 'core::runner_settings::num_threads', ['k_pair_set_num_threads', 'k_pair_auto_num_threads']),
+            ('src/core/runner.rs', 'pair_runner.rs', 'core::runner', ['k_pair_do_spawn', 'k_pair_next_chunk_size'])):
+        out[rel] = open(os.path.join(static, fname)).read()
+        for nm in names:
+            pp = ['C15']
+            if nm in ('k_pair_calc_chunk_size', 'k_pair_next_chunk_size'):
+                pp += ['C11']
+            if nm in ('k_pair_set_num_threads', 'k_pair_do_spawn', 'k_pair_next_chunk_size'):
+                pp += ['C08']
+            if nm in ('k_pair_do_spawn', 'k_pair_next_chunk_size'):
+                pp += ['C10']
+            if nm in ('k_pair_div_ceil', 'k_pair_min_chunk_size'):
+                continue  # 64-bit symbolic division / multiplication: CBMC does not finish in 10 min (Verus proves these)
+            HARNESSES[nm] = dict(kernel='settings', family='pair', props=pp, tier=('thorough' if nm in ('k_pair_calc_chunk_size', 'k_pair_next_chunk_size') else 'quick'), bounded=False,
+                                 path='%s::vk_pair::%s' % (mod, nm), shape=dict(inputs='full-domain symbolic'), covers_expected=None, covers_min=0,
+                                 bound='loop-free (find_chunk_size unrolled 22x with unwinding assertions: complete since the loop halves 2^20), full-domain symbolic inputs')
+    for nm, cov in (('k_drop_filter_collect_vec', 2), ('k_drop_find_early_exit', 2), ('k_drop_map_collect_vec_bag', 1)):
+        HARNESSES[nm] = dict(kernel='api', family='drop', props=['C13'], tier='quick', bounded=True,
+                             path='core::verif_kani::h_drop::%s' % nm, shape=dict(source='Vec of 3 drop-counting items via the real ConIterOfVec', workers=1),
+                             covers_expected=cov,
+                             bound='3 owned items with drop counters, real ConIterOfVec source, one worker via the Runner contract, symbolic predicate tables')
     return out
 
 
